@@ -28,6 +28,7 @@ pub trait Matrix<T: RealNumber>: Sized {
 //@checkdecl src/linalg/mod.rs :: pub trait BaseMatrix<T: RealNumber>: Clone + Debug :: zeros :: fn zeros(nrows: usize, ncols: usize) -> Self
     // the nrows x ncols matrix of zeros
     fn zeros(nrows: usize, ncols: usize) -> (r: Self)
+        requires nrows * ncols <= usize::MAX,     // the element count must be representable (DenseMatrix allocates nrows*ncols)
         ensures
             r.mwf(), r.nrows_spec() == nrows, r.ncols_spec() == ncols,
             forall|i: int, j: int| 0 <= i < nrows && 0 <= j < ncols ==> #[trigger] r.at(i, j) == T::zero_spec();
